@@ -1156,6 +1156,8 @@ class _InlinePrivateGenerators(ast.NodeTransformer):
         if bound:
             # the receiver is the caller's own self: keep the name
             mapping[params[0]] = recv.id
+        gen_stored = set(y.id for y in ast.walk(g) if isinstance(y, ast.Name) and isinstance(y.ctx, (ast.Store, ast.Del)))
+        const_args = {}
         for i, p in enumerate(pos):
             if i < len(args):
                 v = args[i]
@@ -1165,7 +1167,10 @@ class _InlinePrivateGenerators(ast.NodeTransformer):
                 v = copy.deepcopy(defaults[p])
             else:
                 return st
-            binds.append(ast.copy_location(ast.Assign(targets=[ast.Name(id=mapping[p], ctx=ast.Store())], value=v, lineno=st.lineno), st))
+            if isinstance(v, ast.Constant) and p not in gen_stored:
+                const_args[mapping[p]] = v          # a literal argument (an attribute name, a label) is that literal wherever the generator reads it
+            else:
+                binds.append(ast.copy_location(ast.Assign(targets=[ast.Name(id=mapping[p], ctx=ast.Store())], value=v, lineno=st.lineno), st))
         if any(k not in pos for k in kw):
             return st
         gen_body = [copy.deepcopy(b) for b in g.body if not (isinstance(b, ast.Expr) and isinstance(b.value, ast.Constant))]
@@ -1185,6 +1190,8 @@ class _InlinePrivateGenerators(ast.NodeTransformer):
                 out.append(b)
             return out
         renamed = [_RenameLocals(mapping).visit(b) for b in gen_body]
+        if const_args:
+            renamed = [_SubstExpr(const_args).visit(b) for b in renamed]
         new_body = replace(renamed)
         res = binds + new_body
         for r in res:
